@@ -216,3 +216,25 @@ fn md_bin_decode_3_unpadded() {
 fn md_bin_decode_3_padded() {
     bin_decode_case::<3, 1>()
 }
+
+// ---- M3: padded and unpadded spellings of the same bytes are equal values ---------------------------------------------
+#[kani::proof]
+#[kani::unwind(8)]
+#[kani::stub(alloc::fmt::format, fmt_stub)]
+fn md_bin_values_equal_padding() {
+    let c: [u8; 2] = kani::any();
+    let v0 = b64_val(c[0]);
+    let v1 = b64_val(c[1]);
+    kani::assume(v0.is_some() && v1.is_some());
+    kani::assume(v1.unwrap() & 15 == 0); // canonical one-byte value
+    let unpadded = HeaderValue::from_bytes(&[c[0], c[1]]).unwrap();
+    let padded = HeaderValue::from_bytes(&[c[0], c[1], b'=', b'=']).unwrap();
+    assert!(<Binary as Sealed>::values_equal(&unpadded, &padded), "C08: padded and unpadded spellings of one binary value compare unequal");
+    assert!(<Binary as Sealed>::values_equal(&padded, &unpadded));
+    let decoded = ((v0.unwrap() << 2) | (v1.unwrap() >> 4)) as u8;
+    assert!(<Binary as Sealed>::equals(&padded, &[decoded]), "C08: a padded binary value does not equal its bytes");
+    assert!(<Binary as Sealed>::equals(&unpadded, &[decoded]));
+    kani::cover!(true, "compared");
+    core::mem::forget(unpadded);
+    core::mem::forget(padded);
+}
